@@ -114,7 +114,7 @@ def run(ctx, rep):
         rep.oblige(("R1", "populated", f), f in populated)
         if f not in populated:
             rep.add("R1", fi.qname, f"node.{f[1:]}", f"node.{f[1:]} is never filled from the element", fi.loc())
-    rep.floor("stores into node fields", 12)
+    rep.floor("stores into node fields", 8)
     # ---- R2 raw mode identity + sibling agreement
     cleanp = flags[0] if flags else None
     clean_if = None
